@@ -596,6 +596,11 @@ impl MediaStreamTrack for SampleStreamTrack {
 
     async fn recv(&self) -> MediaResult<MediaSample> {
         loop {
+            // Register for wake-ups before looking at any state: `notify_waiters()` (last source
+            // dropped, or `stop()`) stores no permit, so one that lands between the checks
+            // below and the await would otherwise be lost and this call would sleep forever.
+            let notified = self.notify.notified();
+
             #[cfg(rustrtc_verif)]
             crate::verif::sched("r_ended");
             if self.ended.load(Ordering::SeqCst) {
@@ -624,7 +629,7 @@ impl MediaStreamTrack for SampleStreamTrack {
 
             #[cfg(rustrtc_verif)]
             crate::verif::sched("r_await");
-            self.notify.notified().await;
+            notified.await;
             #[cfg(rustrtc_verif)]
             crate::verif::sched("r_recheck");
             if self.source_closed.load(Ordering::Acquire) && self.queue.is_empty() {
